@@ -17,6 +17,7 @@ The module must stay importable: py2coq is imported lazily inside the generator.
 from __future__ import annotations
 
 import ast
+import re
 
 
 class _U(Exception):
@@ -421,24 +422,70 @@ def _gen_downsample_2d_flat(mod, kmod, p2c, out):
     out.append("")
 
 
+def _fastmath_flags(value, kmod):
+    """the fastmath= argument of an njit call -> set of LLVM fast-math flags (True = all of them)"""
+    ALL = {"nnan", "ninf", "nsz", "arcp", "contract", "afn", "reassoc"}
+    if value is None:
+        return set()
+    if isinstance(value, ast.Constant) and isinstance(value.value, bool):
+        return set(ALL) if value.value else set()
+    if isinstance(value, ast.Name):
+        defs = [n for n in kmod.body if isinstance(n, ast.Assign) and len(n.targets) == 1
+                and isinstance(n.targets[0], ast.Name) and n.targets[0].id == value.id]
+        if len(defs) != 1:
+            raise _U(f"fastmath={value.id}: expected exactly one module-level definition")
+        return _fastmath_flags(defs[0].value, kmod)
+    if isinstance(value, ast.Set) and all(isinstance(e, ast.Constant) and isinstance(e.value, str) for e in value.elts):
+        fl = {e.value for e in value.elts}
+        if "fast" in fl:
+            return set(ALL)
+        if not fl <= ALL:
+            raise _U(f"unknown fast-math flags {sorted(fl - ALL)}")
+        return fl
+    raise _U("fastmath argument " + ast.unparse(value))
+
+
 def _gen_accumulators(kmod, out):
-    """the Z model of the mean kernels sums exactly: that is the behaviour of a float64 accumulator on
-    integer-valued data below 2^53, not of an accumulator in the array's own dtype"""
+    """Two facts the integer model of the mean kernels rests on, read from the njit options:
+    (1) the accumulator `temp` is float64, so integer-valued data (below 2^53) is summed exactly -- not in the array's
+        own dtype;
+    (2) the final true division is a division: without the fast-math flag `arcp` (x / y -> x * (1 / y)) the quotient of
+        an exactly divisible sum is exact, and any other quotient truncates to the floor; with `arcp` a mean that is an
+        integer can come out one ulp low and is truncated to the integer below on the store into an integer array."""
+    twins = {"downsample_1d_mean": "downsample_1d_mean_parallel", "downsample_2d_mean_flat": "downsample_2d_mean_parallel"}
     for name in ("downsample_1d_mean", "downsample_2d_mean_flat"):
         fn = _fn(kmod, name)
-        decos = " ".join(ast.unparse(d) for d in fn.decorator_list)
-        typed = "'temp': types.f8" in decos or "'temp': types.float64" in decos
-        inits = [s for s in ast.walk(fn) if isinstance(s, ast.Assign) and isinstance(s.targets[0], ast.Name) and s.targets[0].id == "temp"]
-        if not inits:
-            raise _U(f"{name}: accumulator `temp` not found")
-        float_init = all(isinstance(s.value, ast.Constant) and isinstance(s.value.value, float) for s in inits)
-        if not (typed or float_init):
-            raise _U(f"{name}: accumulator is not float64 (locals={decos!r}, init={[ast.unparse(s.value) for s in inits]})")
-        augs = [s for s in ast.walk(fn) if isinstance(s, ast.AugAssign) and isinstance(s.target, ast.Name) and s.target.id == "temp"]
-        if not augs or not all(isinstance(s.op, ast.Add) for s in augs):
-            raise _U(f"{name}: accumulator update is not +=")
-        out.append(f"(* {name}: accumulator `temp` is float64 ({'locals' if typed else 'float literal'}) *)")
+        njits = [d for d in fn.decorator_list if isinstance(d, ast.Call) and ast.unparse(d.func) == "njit"]
+        if len(njits) != 1:
+            raise _U(f"{name}: expected one @njit(...) decorator")
+        tw = [n for n in kmod.body if isinstance(n, ast.Assign) and len(n.targets) == 1 and isinstance(n.targets[0], ast.Name)
+              and n.targets[0].id == twins[name]]
+        if len(tw) != 1 or not (isinstance(tw[0].value, ast.Call) and ast.unparse(tw[0].value.func) == "njit"
+                                and [ast.unparse(a) for a in tw[0].value.args] == [f"{name}.py_func"]):
+            raise _U(f"{twins[name]}: expected njit({name}.py_func, ...)")
+        for label, call in ((name, njits[0]), (twins[name], tw[0].value)):
+            kw = {k.arg: k.value for k in call.keywords}
+            decos = ast.unparse(call)
+            mt = re.search(r"'temp':\s*([A-Za-z0-9_.]+)", ast.unparse(kw["locals"])) if "locals" in kw else None
+            if mt and mt.group(1) not in ("types.f8", "types.float64", "f8", "float64"):
+                raise _U(f"{label}: accumulator `temp` is declared {mt.group(1)}, not float64")
+            typed = mt is not None
+            inits = [s for s in ast.walk(fn) if isinstance(s, ast.Assign) and isinstance(s.targets[0], ast.Name) and s.targets[0].id == "temp"]
+            if not inits:
+                raise _U(f"{label}: accumulator `temp` not found")
+            float_init = all(isinstance(s.value, ast.Constant) and isinstance(s.value.value, float) for s in inits)
+            if not (typed or float_init):
+                raise _U(f"{label}: accumulator is not float64 ({decos!r}, init={[ast.unparse(s.value) for s in inits]})")
+            augs = [s for s in ast.walk(fn) if isinstance(s, ast.AugAssign) and isinstance(s.target, ast.Name) and s.target.id == "temp"]
+            if not augs or not all(isinstance(s.op, ast.Add) for s in augs):
+                raise _U(f"{label}: accumulator update is not +=")
+            flags = _fastmath_flags(kw.get("fastmath"), kmod)
+            if "arcp" in flags:
+                raise _U(f"{label}: compiled with the fast-math flag arcp: `temp / factor` may be evaluated as temp * (1 / factor), "
+                         "so the hook divcast is not 'exact quotient, then cast' (an integer mean can be truncated to the integer below)")
+            out.append(f"(* {label}: accumulator `temp` is float64 ({'locals' if typed else 'float literal'}); fast-math flags {sorted(flags)} (no arcp) *)")
     out.append("Definition ds_accumulator_is_f8 : bool := true.")
+    out.append("Definition ds_division_is_exact : bool := true.")
     out.append("")
 
 
@@ -529,6 +576,16 @@ class _Detrend:
         return self.inj(t, x)
 
     # ---- arrays --------------------------------------------------------------------------
+    def is_arr(self, e):
+        if isinstance(e, ast.Name):
+            return e.id in self.arr
+        if isinstance(e, ast.Call):
+            f = ast.unparse(e.func)
+            return f in ("np.arange", "np.zeros") or (isinstance(e.func, ast.Attribute) and e.func.attr == "astype")
+        if isinstance(e, ast.BinOp):
+            return self.is_arr(e.left) or self.is_arr(e.right)
+        return False
+
     def dtype_tag(self, e):
         """`arr.dtype` -> tag of that array; np.float64/32 -> 'f'"""
         if isinstance(e, ast.Attribute) and e.attr == "dtype" and isinstance(e.value, ast.Name) and e.value.id in self.arr:
@@ -570,9 +627,9 @@ class _Detrend:
             op = {ast.Add: "+", ast.Sub: "-", ast.Mult: "*"}[type(e.op)]
             sides = []
             for x in (e.left, e.right):
-                try:
+                if self.is_arr(x):
                     sides.append(self.ax(x))
-                except _U:
+                else:
                     sides.append((None, None, self.scal(x)))
             if all(s[0] is None for s in sides):
                 raise _U("not an array expression")
@@ -621,17 +678,15 @@ class _Detrend:
                     self.ty[n] = "int"
                     lines.append(f"let {n} := arr_size in")
                     continue
-                try:
+                if self.is_arr(s.value):
                     tag, g = self.ax(s.value)
-                    if n in self.ty:
-                        raise _U(f"{n} rebound from scalar to array")
-                    self.arr[n] = (tag, lambda k, n=n: f"{n} {k}")
-                    local_arrays.append(n)
+                    if n in self.ty or n in self.arr:
+                        raise _U(f"{n} rebound")
                     lines.append(f"let {n} : Z -> Q := fun k => {g('k')} in")
+                    self.arr[n] = (tag, lambda k, n=n: f"{n} {k}")
                     continue
-                except _U as ex:
-                    if n in self.arr or "array" in str(ex) and "not an array" not in str(ex) and "array expression" not in str(ex):
-                        raise
+                if n in self.arr:
+                    raise _U(f"{n} rebound from array to scalar")
                 t, x = self.sx(s.value)
                 if n in self.ty and self.ty[n] != t:
                     raise _U(f"{n} changes type")
@@ -693,7 +748,7 @@ class _Detrend:
             txt.append("(* int64 arithmetic of the compiled kernel: + - * on integers wrap modulo 2^64 *)")
         txt.append("(* from kernels.detrend_1d; float64 scalars are exact rationals (rounding not modelled)"
                    + ("; cast_in = conversion to the dtype of the input array" if self.uses_cast else "") + " *)")
-        txt.append(f"Definition detrend_1d_requires_size_not : list Z := [{'; '.join(str(c) for c in requires)}].")
+        txt.append(f"Definition detrend_1d_requires_size_not : list Z := [{'; '.join(str(c) for c in requires)}]%Z.")
         txt.append(f"Definition detrend_1d_run {' '.join(params)} : Z -> Q :=\n  " + "\n  ".join(lines) + "\n  " + ret + ".")
         return "\n".join(txt), self.uses_cast, self.uses_wrap
 
@@ -734,9 +789,8 @@ def _bind(call, params):
     return b
 
 
-def _gen_callsites(repo, mod_stats, p2c, out):
+def _gen_cs_deredden(repo, p2c, out):
     ts = ast.parse(open(f"{repo}/sigpyproc/timeseries.py").read())
-    bl = ast.parse(open(f"{repo}/sigpyproc/block.py").read())
     # TimeSeries.deredden
     fn = _method(ts, "TimeSeries", "deredden")
     call = _find_call(fn, "stats.running_filter")
@@ -770,6 +824,10 @@ def _gen_callsites(repo, mod_stats, p2c, out):
         raise _U("deredden: operand " + t)
     out.append("(* from TimeSeries.deredden: window_bins = round(window / tsamp); stats.running_filter(self.data, window_bins, method=method) *)")
     out.append(f"Definition deredden_out (data filt : arr) : arr := fun k => ({leaf(comb.left)} {op} {leaf(comb.right)}).")
+
+
+def _gen_cs_ts_downsample(repo, p2c, out):
+    ts = ast.parse(open(f"{repo}/sigpyproc/timeseries.py").read())
     # TimeSeries.downsample
     fn = _method(ts, "TimeSeries", "downsample")
     call = _find_call(fn, "stats.downsample_1d")
@@ -784,6 +842,10 @@ def _gen_callsites(repo, mod_stats, p2c, out):
             ident_f = _zx(s.test.comparators[0], p2c)
     out.append("(* from TimeSeries.downsample: returns self for this factor, else stats.downsample_1d(self.data, factor, method=filter_method) *)")
     out.append(f"Definition ts_downsample_identity_factors : list Z := [{ident_f if ident_f is not None else ''}].")
+
+
+def _gen_cs_block_downsample(repo, p2c, out):
+    bl = ast.parse(open(f"{repo}/sigpyproc/block.py").read())
     # FilterbankBlock.downsample
     fn = _method(bl, "FilterbankBlock", "downsample")
     if [a.arg for a in fn.args.args][:3] != ["self", "ffactor", "tfactor"]:
@@ -820,7 +882,9 @@ def gen_c14(repo="/repo"):
         ("downsample_2d_flat", lambda: _gen_downsample_2d_flat(smod, kmod, p2c, out)),
         ("mean kernels accumulator", lambda: _gen_accumulators(kmod, out)),
         ("detrend_1d", lambda: _gen_detrend(kmod, out)),
-        ("call sites", lambda: _gen_callsites(repo, smod, p2c, out)),
+        ("TimeSeries.deredden", lambda: _gen_cs_deredden(repo, p2c, out)),
+        ("TimeSeries.downsample", lambda: _gen_cs_ts_downsample(repo, p2c, out)),
+        ("FilterbankBlock.downsample", lambda: _gen_cs_block_downsample(repo, p2c, out)),
     ]
     for name, f in items:
         n0 = len(out)
